@@ -22,10 +22,10 @@ func TestVerifC03(t *testing.T) {
 		}
 		return vwRun(r, name, o, st, depth, devs, "N=3 voters, Q=2, one channel, commands c1 (1 record), c2 (2 records), c3 (1 record), each in an exact and a conflicting content variant; initial state: node 1 installed under (1,1,1); a path ends (silently, counted) at a transition that matches the known C01 defect KF-C01-1")
 	}
-	res := run("replication-world/C03/retained1-deep", 1, ev.Pick(r, 5, 7), ev.Pick(r, 0, 0))
-	res2 := run("replication-world/C03/retained1-mid", 1, ev.Pick(r, 4, 6), ev.Pick(r, 1, 1))
-	res3 := run("replication-world/C03/retained1-faulty", 1, ev.Pick(r, 3, 5), ev.Pick(r, 2, 2))
-	res4 := run("replication-world/C03/retained2", 2, ev.Pick(r, 4, 5), ev.Pick(r, 1, 2))
+	res := run("replication-world/C03/retained1-deep", 1, ev.Pick(r, 5, 6), ev.Pick(r, 0, 0))
+	res2 := run("replication-world/C03/retained1-mid", 1, ev.Pick(r, 4, 5), ev.Pick(r, 1, 1))
+	res3 := run("replication-world/C03/retained1-faulty", 1, ev.Pick(r, 3, 4), ev.Pick(r, 2, 2))
+	res4 := run("replication-world/C03/retained2", 2, ev.Pick(r, 4, 5), ev.Pick(r, 1, 1))
 	res.States += res3.States + res4.States
 	vwAssumptions(r)
 	vwCounters(r, st)
